@@ -81,19 +81,17 @@ impl<L: Language, N: Analysis<L>> EGraph<L, N> {
 
         let syn_slots = &self.syn_slots(id);
         let c = self.classes.get_mut(&id).unwrap();
-        let grp = &c.group;
-
-        let mut final_cap = cap.clone();
-
-        // d is a newly redundant slot.
-        for d in &c.slots - &cap {
-            // if d is redundant, then also the orbit of d is redundant.
-            final_cap = &final_cap - &grp.orbit(d);
-        }
 
         c.slots = cap.clone();
         let generators = c.group.generators();
         let _ = c;
+
+        // A generator that maps a retained slot to a newly redundant one (or back) is not a
+        // permutation of the retained slots. It says that even more slots are redundant (the orbit
+        // of a redundant slot is redundant). Such generators are re-asserted as equations below.
+        let (generators, crossing): (Vec<ProvenPerm>, Vec<ProvenPerm>) = generators
+            .into_iter()
+            .partition(|p| p.elem.iter().all(|(x, y)| cap.contains(&x) == cap.contains(&y)));
 
         let restrict_proven = |proven_perm: ProvenPerm| {
             if CHECKS {
@@ -128,6 +126,19 @@ impl<L: Language, N: Analysis<L>> EGraph<L, N> {
         }
         let c = self.classes.get_mut(&id).unwrap();
         c.group = Group::new(&identity, generators);
+
+        // id[x1, .., xn] = id[g(x1), .., g(xn)] for each crossing generator g, now over the retained slots only.
+        for g in crossing {
+            let l = self.mk_sem_identity_applied_id(id);
+            let cur = self.slots(id);
+            let r_map: SlotMap = g.elem.iter().filter(|(x, _)| cur.contains(x)).collect();
+            let r = self.mk_sem_applied_id(id, r_map);
+            #[cfg(feature = "explanations")]
+            let proof = g.proof.clone();
+            #[cfg(not(feature = "explanations"))]
+            let proof = ();
+            self.union_internal(&l, &r, proof);
+        }
 
         self.touched_class(from.id, PendingType::Full);
     }
